@@ -135,10 +135,10 @@ CHECKS = {
                   'parser/printer/flatten, bit-exact double round trips, rejection rules, fuzzing under ASan',
         text='Proof: flatten_is_naive_execution (flattened_helper / iter_flatten_error_instructions_helper with a running detector '
              'offset through nested repeat blocks = unrolling then executing one instruction at a time; any nesting, counts, offsets), '
-             'tag and decimal round trips shared with C07. Tie H: random models (repeat to 2^59, shifts, separators, escaped tags, 60-bit '
+             'tag and decimal round trips shared with C07; dtargets_roundtrip / read_u60_print (whole target lists D<n> L<n> ^ through operator<< and read_arbitrary_dem_targets_into with the 2^60 limit). Tie H: the extracted target-list reader/printer against the real ones (irregular spacing, comments, letter case, malformations); random models (repeat to 2^59, shifts, separators, escaped tags, 60-bit '
              'ids, awkward doubles incl. subnormals) through string/file parsers: intended structure and bit-exact print/parse round '
              'trip; 28 rejection rules; fuzz under ASan; flattened() and iter_flatten_error_instructions against the extracted model.',
-        note=TB + ' The DEM parser is not modelled beyond tags/integers; coordinate shifts are checked by C15\'s interpreter, not in DemFlat.',
+        note=TB + ' The DEM parser is not modelled beyond tags, integers and target lists; coordinate shifts are checked by C15\'s interpreter, not in DemFlat.',
         design='§4 C08'),
     'C16': dict(
         technique='Coq proof that a sampled shot is the parity of the fired errors\' targets (+ flatten = naive execution, equal fibres) + '
